@@ -98,7 +98,14 @@ def main(argv):
             return core.finish(ctx, "INCOMPLETE RUN: %s" % e)
         print("ANALYSIS-ERROR property=%s %s" % (pid, e))
         return core.EXIT_ANALYSIS
-    except Exception:
+    except Exception as e:
+        if type(e).__name__ in ("PyRaise", "RaiseReached"):
+            # a Python exception of the analysed code that no rule expected on its model (a model name looked up in a real
+            # table, say): the rule cannot be evaluated on this tree -- no verdict
+            if os.environ.get("XFAB_TRACE"):
+                traceback.print_exc()
+            print("ANALYSIS-ERROR property=%s the analysed code raises on the rule's model and the rule does not expect it: %s" % (pid, str(e)[:160]))
+            return core.EXIT_ANALYSIS
         traceback.print_exc()
         print("ANALYSIS-ERROR property=%s internal error (see traceback)" % pid)
         return core.EXIT_ANALYSIS
